@@ -1,9 +1,12 @@
 package props
 
 import (
+	"encoding/json"
 	"fmt"
 	"sort"
 	"strings"
+
+	"github.com/Oudwins/zog/parsers/zjson"
 
 	"zogverif/internal/core"
 	"zogverif/internal/gen"
@@ -25,7 +28,7 @@ func (c09) Info(t core.Tier) core.Info {
 	reps := tierN(t, 12, 40)
 	return core.Info{
 		Level: "exploration",
-		Rule: fmt.Sprintf("each case = one generated struct-rooted schema (2-5 fields per struct, nested structs / slices of structs, catching, defaulted and failing mixes) x 3 inputs x {Parse, Validate}, executed %d times with the schema map and the input maps rebuilt in random insertion orders; "+
+		Rule: fmt.Sprintf("each case = one generated struct-rooted schema (2-5 fields per struct, nested structs / slices of structs, catching, defaulted and failing mixes) x 3 inputs x {Parse from Go maps, Validate, Parse of the same data as a JSON document through zjson}, executed %d times with the schema map and the input maps rebuilt in random insertion orders; "+
 			"the field visit order of every run is observed through recording tests. oracle: the set of canonical results (every key of the issue map except $first with path, code, type, message, params, value, error; destination on success) over all runs is a singleton. "+
 			"non-trivial: the case was observed under >= 2 distinct visit orders and has >= 1 issue or >= 2 leaves; distinct by (schema, input, mode).", reps),
 		Assumptions: append([]string{"Go randomises map iteration per range statement; visit orders are observed, not assumed"}, commonAssumptions...),
@@ -88,7 +91,41 @@ func (c09) RunCase(c *core.Ctx) {
 	for k := 0; k < 3; k++ {
 		data := gen.ParseInput(c.R, n, gen.InOpts{ValidPct: 55, AbsentPct: 18, WrongPct: 12, AltRep: true, Decoys: true})
 		val := gen.ValueTree(c.R, n, gen.InOpts{ValidPct: 55, AbsentPct: 25}, false)
-		for _, mode := range []ref.Mode{ref.Parse, ref.Validate} {
+		// third mode: the same data as a JSON document through zjson (a tagged provider); the document is re-encoded with
+		// its keys in a random order for every run
+		jsonDoc := func() (string, bool) {
+			m, ok := data.(map[string]any)
+			if !ok || n.Kind != spec.Struct || len(m) == 0 {
+				return "", false
+			}
+			keys := make([]string, 0, len(m))
+			for k := range m {
+				keys = append(keys, k)
+			}
+			sort.Strings(keys)
+			var sb strings.Builder
+			sb.WriteString("{")
+			for i, j := range c.R.Perm(len(keys)) {
+				kb, _ := json.Marshal(keys[j])
+				vb, err := json.Marshal(m[keys[j]])
+				if err != nil {
+					return "", false
+				}
+				if i > 0 {
+					sb.WriteString(",")
+				}
+				sb.Write(kb)
+				sb.WriteString(":")
+				sb.Write(vb)
+			}
+			sb.WriteString("}")
+			return sb.String(), true
+		}
+		modes := []ref.Mode{ref.Parse, ref.Validate}
+		if _, ok := jsonDoc(); ok {
+			modes = append(modes, ref.Mode(2))
+		}
+		for _, mode := range modes {
 			results := map[string][]string{}
 			orders := map[string]bool{}
 			var first string
@@ -107,10 +144,14 @@ func (c09) RunCase(c *core.Ctx) {
 				rec := &orderRecorder{}
 				b := spec.Build(n, rec.hooks(c.R))
 				var out *run.Outcome
-				if mode == ref.Parse {
+				switch mode {
+				case ref.Parse:
 					out = run.Parse(b, permuteMaps(c.R, data), nil)
-				} else {
+				case ref.Validate:
 					out = run.Validate(b, val)
+				default:
+					doc, _ := jsonDoc()
+					out = run.Parse(b, zjson.Decode(strings.NewReader(doc)), nil)
 				}
 				c.Eval(1)
 				if out.Panicked {
